@@ -57,8 +57,8 @@ func vTypeTemplate(c *Context, k int, p string) Type {
 		return c.LookupTypeArray(vPrim(p + ".prim"))
 	case 4: // |[int64]|
 		return c.LookupTypeSet(TypeInt64)
-	case 5: // |{P:int64}|
-		return c.LookupTypeMap(vPrim(p+".prim"), TypeInt64)
+	case 5: // |{P:Q}|
+		return c.LookupTypeMap(vPrim(p+".prim"), vPrim(p+".prim2"))
 	case 6: // (int64,string) or (int64,N=int64), members given in either order
 		var other Type = TypeString
 		if verif.Choose(p+".member", 2) == 1 {
@@ -158,7 +158,7 @@ func vSign(x int) int {
 // ---------------------------------------------------------------------------
 
 // verif:desc C05-O1a zed.CompareTypes on every pair of types built in ONE context through the real Context.LookupType* constructors: reflexive, antisymmetric (sign(cmp(a,b)) == -sign(cmp(b,a))), and cmp(a,b)==0 exactly when a and b are structurally equal; and (C05 first sentence) a and b are the same pointer / have the same TypeID exactly when they are structurally equal, and the union of a and b is the same type whichever member order is given. Assertion ids ending in /nested-named are the region where a or b is a named type whose inner type is itself named.
-// verif:bounds a,b: all pairs (i<=j) of 13 templates: P, {n1:P}, {n1:int64,n2:string}, [P], |[int64]|, |{P:int64}|, (int64,string)/(int64,N=int64) in either member order, enum(s1), enum(s1,s2), error(P), N=P, N={n1:int64}, N=(M=int64); P in {int64,string}; every name/symbol an arbitrary letter of {a,b,c}, chosen independently for a and b
+// verif:bounds a,b: all pairs (i<=j) of 13 templates: P, {n1:P}, {n1:int64,n2:string}, [P], |[int64]|, |{P:Q}|, (int64,string)/(int64,N=int64) in either member order, enum(s1), enum(s1,s2), error(P), N=P, N={n1:int64}, N=(M=int64); P, Q in {int64,string}; every name/symbol an arbitrary letter of {a,b,c}, chosen independently for a and b
 // verif:outside deeper nesting; more than 2 fields/members/symbols; concurrent lookups
 // verif:unwind 24
 func VerifH_C05_O1_order_pairs() {
